@@ -52,9 +52,9 @@ class PruneNGramStream {
 
     PruneNGramStream &operator++() {
       assert(block_);
-      if(UTIL_UNLIKELY(current_.Order() == 1 && specials_.IsSpecial(*current_.begin())))
-        dest_.NextInMemory();
-      else if(currentCount_ > 0) {
+      // Special unigrams are always kept.  With a renumbered vocabulary they can
+      // follow pruned entries, so they have to be moved like everything else.
+      if((current_.Order() == 1 && specials_.IsSpecial(*current_.begin())) || currentCount_ > 0) {
         if(dest_.Base() < current_.Base()) {
           memcpy(dest_.Base(), current_.Base(), current_.TotalSize());
         }
